@@ -268,7 +268,26 @@ def unit_bounded_reported_after_printing(U):
     U.bounded_result("C09.bounded.reported_after_printing", "printing features leaves the reported / supplied dialect (incl. its key order) as it was", "GFF3 and GTF text with keys first seen beyond the window x keep_order on/off x 3 sources", cases, fails)
 
 
-UNITS = [("bounded.reported_after_printing", unit_bounded_reported_after_printing), ("route", unit_route), ("fresh", unit_fresh), ("prebuilt", unit_prebuilt), ("line.kv", _unit_line(("k=v", 'k="v"'))), ("line.sp", _unit_line(('k "v"', "k v"))), ("vote", unit_vote), ("window", unit_window)]
+def unit_bounded_semicolon_values(U):
+    """Bounded: the field separator reported is the one BETWEEN the attributes, also when a quoted value - the first one
+    included - contains a narrower semicolon form ("a;b", "Clone x; Genbank y")"""
+    fails, cases = [], 0
+    for sep in (" ; ", "; "):
+        for first in ('Note "Clone cTel33B; Genbank AC199162"', 'Note "a;b"', 'Note "p ; q;r"'):
+            for trailing in (False, True):
+                if sep in first.split('"')[1]:
+                    continue            # the value holds the separator itself: not distinguishable by any reader
+                attr = sep.join([first, 'Sequence "cTel33B"', 'gene_id "g1"']) + (";" if trailing else "")
+                cases += 1
+                d = H.infer_dialect(attr)
+                line = "c\ts\texon\t1\t9\t.\t+\t.\t" + attr
+                it_ = gffutils.DataIterator(line + "\n" + line.replace("g1", "g2") + "\n", from_string=True)
+                got = (d["field separator"], it_.dialect["field separator"], d["order"])
+                if got[0] != sep or got[1] != sep or got[2] != ["Note", "Sequence", "gene_id"]:
+                    fails.append({"case": {"attributes": attr}, "expected": [sep, sep, ["Note", "Sequence", "gene_id"]], "observed": list(got)})
+    U.bounded_result("C09.bounded.semicolon_values", "field separator and key order are those of the attribute list, whatever semicolons the quoted values hold", "2 separators x 3 first values x trailing semicolon", cases, fails)
+
+UNITS = [("bounded.semicolon_values", unit_bounded_semicolon_values), ("bounded.reported_after_printing", unit_bounded_reported_after_printing), ("route", unit_route), ("fresh", unit_fresh), ("prebuilt", unit_prebuilt), ("line.kv", _unit_line(("k=v", 'k="v"'))), ("line.sp", _unit_line(('k "v"', "k v"))), ("vote", unit_vote), ("window", unit_window)]
 try:
     from standins import C09 as _S
     UNITS = UNITS + list(_S.UNITS)
